@@ -25,20 +25,27 @@ from harness.gen import c13_vcf as G
 
 RULE = ("case = one generated VCF (1-3 contigs, 0-4 samples, up to 14*scale records; ploidy 1-5 per call, '.', "
         "partially missing, phased/unphased/mixed separators, records without GT, FORMAT fields DP GQ AD FT PS PQ HP in "
-        "random order, dropped trailing fields, multi-ALT/indel/symbolic ALT) run through `whatshap unphase` twice, or one "
-        "phase->unphase->unphase history on a simulated scenario; non-trivial iff the file given to unphase has >= 1 data "
+        "random order, dropped trailing fields, multi-ALT/indel/symbolic ALT; header with 0-3 ##phasing lines anywhere, "
+        "##PHASING, INFO fields named PS/HP, definitions of unused phase tags left out; given as path, on stdin or bgzipped) "
+        "run through `whatshap unphase` twice, or one phase->unphase->unphase history on a simulated scenario, or a file and a "
+        "random phase-only edit of it (alleles of complete genotypes permuted, separators, HP/PQ/PS and ##phasing added / "
+        "changed / deleted; every ploidy) both unphased; non-trivial iff the file given to unphase has >= 1 data "
         "line and >= 1 phased genotype or HP/PQ/PS value; distinct = distinct input text")
 MANIFEST = dict(
     text="Lean 4 theorems about a model of run_unphase's record loop written with Python primitives that raise where "
          "CPython/pysam raise (HEAD's loop and the loop after fixes/F2.patch): the repaired loop is total and equals the "
          "specification function, which leaves no phase information, preserves allele multisets and every other field, is "
-         "idempotent and is invariant under phase-only edits; HEAD's loop raises exactly on the characterised call shapes. "
+         "idempotent and is invariant under phase-only edits (an executable checker decides that relation and the check "
+         "applies it to its own edits); the pre-F2 loop raises exactly on the characterised call shapes; unphase_header "
+         "removes the three FORMAT definitions and (HEAD: the first, repaired: every) ##phasing line and nothing else, keeps "
+         "every definition the output records need, and the whole file function is idempotent (HEAD: iff <= 1 ##phasing line). "
          "Tied to the working tree by running the real CLI on generated VCFs and comparing field by field with the model, "
          "plus a text-level oracle of the property on every (input, output) pair and phase/unphase/unphase histories",
     design_ref="DESIGN.md §5 C13",
     note="trusted: Lean kernel, axioms ⊆ {propext, Classical.choice, Quot.sound}; hand-written model; htslib/pysam parsing "
          "and serialisation are outside the model (the harness reads input and output as plain text); well-formed = GT first "
-         "in FORMAT, FORMAT column present when the header has samples; header lines are only observed, not judged",
+         "in FORMAT, FORMAT column present when the header has samples; htslib drops verbatim repeats of generic header "
+         "lines while parsing (mirrored when the header is handed to the model)",
     technique="Lean 4 model with exception-raising primitives + totality/idempotence/permutation proofs + CLI differential run",
 )
 ASSUMPTIONS = [
@@ -205,6 +212,10 @@ def _run(ctx, rng, wd):
             cases.append(c)
         for i in range(n_hist):
             cases.append(scenario_case(rng))
+        for i in range((20 if ctx.quick else 250) * ctx.scale):
+            c = G.gen_case(rng, scale=1 if ctx.quick else rng.choice([1, 2]), exotic=True)
+            c["input"] = "path"
+            cases.append({"kind": "edit", "vcf": c, "edited": G.edit_case(rng, c)})
 
     pool = concurrent.futures.ThreadPoolExecutor(WORKERS)
 
@@ -217,7 +228,14 @@ def _run(ctx, rng, wd):
         d = os.path.join(wd, f"c{idx}")
         os.makedirs(d, exist_ok=True)
         res = {"dir": d}
-        if case.get("kind", "file") == "file":
+        if case.get("kind", "file") == "edit":
+            res["inputs"] = []
+            for label, c in (("original", case["vcf"]), ("edited", case["edited"])):
+                text = G.vcf_text(c)
+                p = os.path.join(d, label + ".vcf")
+                open(p, "w").write(text)
+                res["inputs"].append((label, p, text))
+        elif case.get("kind", "file") == "file":
             text = G.vcf_text(case)
             p = os.path.join(d, "in.vcf")
             open(p, "w").write(text)
@@ -326,7 +344,7 @@ def _run(ctx, rng, wd):
             # header: correspondence with the model of unphase_header (HEAD: first ##phasing line only; repaired: all)
             h_out = [l for l in run["out"].split("\n") if l.startswith("##")]
             hm = run["hmodel"]
-            n_phasing = sum(1 for l in run["in_text"].split("\n") if l.startswith("##phasing="))
+            n_phasing = len({l for l in run["in_text"].split("\n") if l.startswith("##phasing=")})
             ctx.dist("phasing_header_lines", min(n_phasing, 3))
             ctx.dist("input_mode", run.get("mode", "path"))
             if "error" in hm:
@@ -358,6 +376,26 @@ def _run(ctx, rng, wd):
             if "ok" not in model["fix"] or model["fix"]["ok"] != model["spec"]:
                 ctx.disagree("c13.unphase.fix", case, "unphaseFix differs from unphase", model["fix"])
             ctx.validated()
+        if kind == "edit" and len(res["runs"]) == 2:
+            ra, rb = res["runs"]
+            chk = ctx.model.ask_many([{"op": "c13.isedit", "a": G.model_records(ra["recs"]), "b": G.model_records(rb["recs"])}])[0]
+            if chk != {"edit": True, "same": True}:
+                ctx.disagree("c13.isedit", case, "the generated edit is not a phase-only edit for the model", chk)
+            elif ra["rc"] == 0 and rb["rc"] == 0:
+                pa, pb = (G.parse_vcf_text(r["out"])[2] for r in (ra, rb))
+                n_perm = sum(1 for x, y in zip(ra["recs"], rb["recs"]) for cx, cy in zip(x["calls"], y["calls"])
+                             if x["format"] and y["format"] and x["format"][:1] == ["GT"]
+                             and cx[0].replace("|", "/") != cy[0].replace("|", "/"))
+                ctx.dist("edit_permuted_genotypes", min(n_perm, 12) // 3 * 3)
+                if pa != pb:
+                    first = next((i for i, (x, y) in enumerate(zip(pa, pb)) if x != y), None)
+                    ctx.fail(f"[edit] unphase of a phase-only edited file differs from unphase of the original at record {first}: "
+                             f"{pa[first] if first is not None else len(pa)} vs {pb[first] if first is not None else len(pb)}",
+                             case, key="unphase-edit-neq-unphase")
+                keep = lambda t: [l for l in t.split("\n") if l.startswith("##") and not l.startswith("##phasing=")]
+                if keep(ra["out"]) != keep(rb["out"]):
+                    ctx.fail("[edit] the unphased headers of original and edited file differ beyond ##phasing lines", case,
+                             key="unphase-edit-header-differs")
         if kind == "history" and len(res["runs"]) == 2 and all(r["rc"] == 0 for r in res["runs"]):
             a, b = (data_lines(r["out"]) for r in res["runs"])
             phased_text = res["runs"][1]["in_text"]
